@@ -1,5 +1,47 @@
-(* C16 (growing) *)
-From GF Require Import Base.Bytes Model.Routing.
-Theorem C16_host_none : forall host path, route HostNone host path = split_path path.
-Proof. reflexivity. Qed.
-Print Assumptions C16_host_none.
+(* C16 — Path-style and virtual-host-style addressing reach the same bucket and key.
+   Model: Model/Routing.v (routeBase's bucket/object split and the two host middlewares). Every
+   handler is a function of (method, bucket, object, query, headers, body) only, so equal routes
+   give equal answers (the correspondence check compares the answers of twin servers). *)
+From GF Require Import Base.Bytes Model.Routing Proofs.RoutingProofs.
+
+(* host-bucket mode: host "<bucket>.<base>" + path "/<key>" routes like "/<bucket>/<key>", for
+   every label, every key path (any bytes, empty, nested, trailing slashes) and every base *)
+Theorem C16_host_eq_path : forall bucket base rest,
+  label bucket ->
+  route HostBucket (bucket ++ dotc :: base) (slash :: rest) = route HostNone [] (slash :: bucket ++ slash :: rest).
+Proof. exact host_bucket_eq_path. Qed.
+Print Assumptions C16_host_eq_path.
+
+(* host-bucket-base mode with any list of bases (configured with or without stray dots / a port):
+   "<label>.<base>" for ANY configured base routes like path-style, whichever base matches first *)
+Theorem C16_host_base_eq_path : forall bases base bucket rest,
+  label bucket -> In base bases ->
+  route (HostBases bases) (bucket ++ dotc :: trim dotc base) (slash :: rest)
+  = route HostNone [] (slash :: bucket ++ slash :: rest).
+Proof. exact host_base_eq_path. Qed.
+Print Assumptions C16_host_base_eq_path.
+
+(* a match means exactly "<single label>.<configured base>" *)
+Theorem C16_match_sound : forall bases host b,
+  match_bucket bases host = Some b ->
+  exists base, In base bases /\ host = b ++ dotc :: trim dotc base /\ ~ In dotc b.
+Proof. exact match_bucket_sound. Qed.
+Print Assumptions C16_match_sound.
+
+(* every other host (the base itself, multi-label prefixes, unrelated hosts) falls back to
+   path-style with the path unchanged *)
+Theorem C16_fallback : forall bases host path,
+  (forall base b, In base bases -> host = b ++ dotc :: trim dotc base -> In dotc b) ->
+  route (HostBases bases) host path = route HostNone host path.
+Proof. exact host_base_fallback. Qed.
+Print Assumptions C16_fallback.
+
+(* extra slashes before the bucket or at the end of the path do not change the address *)
+Theorem C16_slashes : forall n m path,
+  split_path (repeat slash n ++ path ++ repeat slash m) = split_path path.
+Proof. exact extra_slashes. Qed.
+Print Assumptions C16_slashes.
+
+Example C16_ex : route (HostBases [[46;115;51;46;116;46]%N (* ".s3.t." *)]) [98;107;116;46;115;51;46;116]%N (* "bkt.s3.t" *) [47;100;47;101]%N
+               = ([98;107;116]%N, [100;47;101]%N).
+Proof. vm_compute. reflexivity. Qed.
